@@ -357,6 +357,55 @@ def _blocks(fn):
 # ---------------------------------------------------------------------------
 # H: inline unknown helpers
 
+def _always_returns(stmts):
+    if not stmts:
+        return False
+    last = stmts[-1]
+    if isinstance(last, (ast.Return, ast.Raise)):
+        return True
+    if isinstance(last, ast.If) and last.orelse:
+        return _always_returns(last.body) and _always_returns(last.orelse)
+    return False
+
+
+def _single_exit(stmts):
+    """Rewrite a statement list whose only non-final returns are in
+    if-branches into one where every return is the last statement of its
+    branch (`if c: return a` + rest -> if/else); None if unsupported."""
+    out = []
+    for k, st in enumerate(stmts):
+        if isinstance(st, ast.Return):
+            out.append(st)
+            return out
+        if isinstance(st, ast.If):
+            has_ret = any(isinstance(x, ast.Return) for x in ast.walk(st))
+            if has_ret:
+                rest = stmts[k + 1:]
+                body = _single_exit(st.body)
+                if body is None:
+                    return None
+                if _always_returns(st.body):
+                    orelse = _single_exit(list(st.orelse) + rest)
+                    if orelse is None:
+                        return None
+                    new = ast.If(test=st.test, body=body, orelse=orelse)
+                    out.append(ast.copy_location(new, st))
+                    return out
+                if st.orelse and _always_returns(st.orelse):
+                    orelse = _single_exit(st.orelse)
+                    body2 = _single_exit(list(st.body) + rest)
+                    if orelse is None or body2 is None:
+                        return None
+                    new = ast.If(test=st.test, body=body2, orelse=orelse)
+                    out.append(ast.copy_location(new, st))
+                    return out
+                return None
+        if any(isinstance(x, ast.Return) for x in ast.walk(st)):
+            return None
+        out.append(st)
+    return out
+
+
 def _simple_helper(fn):
     body = [s for s in fn.body if not (isinstance(s, ast.Expr) and isinstance(
         s.value, ast.Constant))]
@@ -364,8 +413,11 @@ def _simple_helper(fn):
         return None
     rets = [n for n in _own_nodes(fn) if isinstance(n, ast.Return)]
     if len(rets) > 1:
-        return None
-    if rets and rets[0] is not body[-1]:
+        body = _single_exit(copy.deepcopy(body))
+        if body is None:
+            return None
+        fn._multi_return = True
+    elif rets and rets[0] is not body[-1]:
         return None
     if any(isinstance(n, (ast.Yield, ast.YieldFrom, ast.Global, ast.Nonlocal,
                           ast.FunctionDef, ast.Lambda))
@@ -520,7 +572,27 @@ def _inline_helpers(tree, modname, ref, log):
                             return node
                     body = [R().visit(s_) for s_ in body]
                     retv = None
-                    if body and isinstance(body[-1], ast.Return):
+                    if getattr(hf, '_multi_return', False):
+                        # every return becomes `target = value` (or stays a
+                        # return when the call itself is returned)
+                        if isinstance(st, ast.Assign) and st.value is c and \
+                                len(st.targets) == 1:
+                            tgt_ = st.targets[0]
+
+                            class RR(ast.NodeTransformer):
+                                def visit_Return(self, node):
+                                    return ast.copy_location(ast.Assign(
+                                        targets=[copy.deepcopy(tgt_)],
+                                        value=node.value or ast.Constant(
+                                            value=None)), node)
+                            body = [RR().visit(s_) for s_ in body]
+                            direct = True
+                        elif isinstance(st, ast.Return) and st.value is c:
+                            direct = True
+                        else:
+                            failed = True
+                            break
+                    elif body and isinstance(body[-1], ast.Return):
                         retv = body[-1].value
                         body = body[:-1]
                     ins = pre + body
